@@ -8,7 +8,7 @@ git -C "$A/repo" checkout -q --detach $(git -C /repo rev-parse HEAD); git -C "$A
 cp -r /verif/engine "$A/engine"
 sed -i "s#path = \"/repo\"#path = \"$A/repo\"#" "$A/engine/Cargo.toml"
 sed -i "s#\"/repo/src/driver.rs\"#\"$A/repo/src/driver.rs\"#" "$A/engine/src/main.rs"
-echo "target-dir = \"$A/target\"" >> "$A/engine/.cargo/config.toml"
+sed -i "s#^target-dir = .*#target-dir = \"$A/target\"#" "$A/engine/.cargo/config.toml"
 cp /verif/known_findings.json "$A/out/" 2>/dev/null || true
 cat > "$A/engine/run.sh" <<EOS
 #!/bin/bash
